@@ -799,7 +799,10 @@ func (x *Exec) havoc(st *State, ms *modSet, tag string) *State {
 			}
 			cond = And(cs...)
 		} else {
-			cond = And(Cmp("<", r, x.alloc0), Not(x.frameOK(st, r, key)))
+			// coarse: the loop may write any fresh or modifiable array of this heap; memory the function may
+			// not write (parameters outside the modifies clause, global tables) is preserved
+			x.preserveFrame(n, st, key, old, nh)
+			continue
 		}
 		n.assume(Forall([]Term{r}, Implies(cond, Eq(Select(nh, r), Select(old, r))), []Term{Select(nh, r)}), "loop-frame:"+key)
 	}
@@ -1030,6 +1033,18 @@ func (x *Exec) runLoop(st *State, ls *loopSpec, k cont) {
 }
 
 func splitConj(t Term) []Term {
+	parts := splitConj1(t)
+	if len(parts) == 1 {
+		return parts
+	}
+	var out []Term
+	for _, p := range parts {
+		out = append(out, splitConj(p)...)
+	}
+	return out
+}
+
+func splitConj1(t Term) []Term {
 	if !strings.HasPrefix(t.S, "(and ") {
 		return []Term{t}
 	}
@@ -1349,4 +1364,83 @@ func (x *Exec) callMods(call *ast.CallExpr, ms *modSet) {
 	if len(c.Ghost) > 0 {
 		ms.ghost = true
 	}
+}
+
+// preserveFrame states, without quantifier alternation, which pre-existing arrays of heap `key` keep their
+// contents across a havoc: arrays of parameters (directly, through one level of nesting, or through struct
+// fields) that are not in the modifies clause and do not alias a modifiable parameter, and global tables.
+// Sound because every store is checked against frameOK (fresh memory or the modifies clause).
+func (x *Exec) preserveFrame(n *State, st *State, key string, old, nh Term) {
+	modRefs := []Term{}
+	var modRows []SliceV
+	for _, m := range x.modSpecs {
+		sv, ok := m.v.(SliceV)
+		if !ok {
+			continue
+		}
+		if !m.star {
+			if k, _ := heapKey(sv.Elem); k == key {
+				modRefs = append(modRefs, sv.Ref)
+			}
+		} else if in, ok := sv.Elem.Underlying().(*types.Slice); ok {
+			if k, _ := heapKey(in.Elem()); k == key {
+				modRows = append(modRows, sv)
+			}
+		}
+	}
+	notMod := func(ref Term) Term {
+		cs := []Term{}
+		for _, mr := range modRefs {
+			cs = append(cs, Neq(ref, mr))
+		}
+		return And(cs...)
+	}
+	var visit func(v Value, depth int)
+	visit = func(v Value, depth int) {
+		switch a := v.(type) {
+		case SliceV:
+			if _, isStruct := a.Elem.Underlying().(*types.Struct); isStruct {
+				return
+			}
+			k, _ := heapKey(a.Elem)
+			if k == key {
+				isMod := false
+				for _, mr := range modRefs {
+					if mr.S == a.Ref.S {
+						isMod = true
+					}
+				}
+				if !isMod && len(modRows) == 0 {
+					n.assume(Implies(notMod(a.Ref), Eq(Select(nh, a.Ref), Select(old, a.Ref))), "frame:param")
+				}
+			}
+			if in, ok := a.Elem.Underlying().(*types.Slice); ok && depth == 0 {
+				if ik, _ := heapKey(in.Elem()); ik == key {
+					isModRows := false
+					for _, mr := range modRows {
+						if mr.Ref.S == a.Ref.S {
+							isModRows = true
+						}
+					}
+					if !isModRows && len(modRows) == 0 {
+						okey, _ := heapKey(a.Elem)
+						outer := Select(x.preHeap(okey, SSl), a.Ref)
+						q := Term{"fp!a", SInt}
+						row := App(SInt, "s-ref", Select(outer, Add(a.Off, q)))
+						n.assume(Forall([]Term{q}, Implies(And(Cmp("<=", Int(0), q), Cmp("<", q, a.Len), notMod(row)), Eq(Select(nh, row), Select(old, row))), []Term{Select(outer, Add(a.Off, q))}), "frame:param-rows")
+					}
+				}
+			}
+		case StructV:
+			for _, f := range a.F {
+				visit(f, depth)
+			}
+		}
+	}
+	for _, pv := range x.pre.vars {
+		visit(pv, 0)
+	}
+	// global tables live below ref 100 (alloc0 >= 100) and are never modifiable
+	r := Term{"fr!r", SInt}
+	n.assume(Forall([]Term{r}, Implies(And(Cmp("<", Int(0), r), Cmp("<", r, Int(100))), Eq(Select(nh, r), Select(old, r))), []Term{Select(nh, r)}), "frame:globals")
 }
